@@ -68,6 +68,10 @@ CHECKS = {
          "Generated histories with frequent compact(): placement, lengths, byte contents (model) and both file lengths are compared across every compact(); every hole-punch event is checked against the in-memory metadata and against the durable regions-file image reconstructed by the crash simulator at that instant (disjoint from every referenced region's valid pages, inside a free extent or an unused reserve); every storage event from the first compact() on is a crash point under the C05 image families and recovery oracle.",
          "Sequential histories only: interleavings of compact() with concurrent writers are NOT explored by this check (that part of the property is not claimed). Crash model as for C05.",
          "property-based fault injection + invariant monitor over recorded storage events (proptest)", "DESIGN.md §4 C12, §3 E2"),
+ "C15": ("E5-lazy", "exploration",
+         "Property test with a formula oracle: every lazy vector kind (one/two/three-source transforms incl. index-dependent functions, the shipped arithmetic transforms, lazy-over-lazy and sources of another index type; windowed delta operators Sub/Avg/Change/Rate over generated monotone window starts; sparse aggregation over generated first-index mappings) is built over stored sources of generated formats and lengths, and every read path (whole, ranges incl. beyond the end and to=usize::MAX, into-buffer, fold/try_fold with early exit, for_each, signed ranges, point reads, sorted reads with duplicates, cursors, boxed clones) is compared with the closed formula over the model sources, right after construction and again after the sources grew.",
+         "Float outputs are compared bit-exactly (same operation order as documented); for a delta vector whose window-start array is shorter than its source, len() may report the source length while min(source, starts) elements are readable - the reads are held to the readable length. Halve/Negate are only defined for signed element types and are not exercised.",
+         "property-based testing against a closed-formula oracle over generated sources, mappings and read requests (proptest)", "DESIGN.md §4 C15"),
 }
 WIP = "not claimed: the generated-input check designed in DESIGN.md §4 was not built within the time available (the technique applies; nothing is asserted about this property)"
 
@@ -96,6 +100,7 @@ ENGINES = [
  {"name": "E7-codec", "path": "harness/src/props/c17.rs", "serves_properties": ["C17"], "kind_free_text": "encoders/decoders driven directly (hook H9) and through Database::open; reference decoders, mutation operators, counting global allocator"},
  {"name": "E8-proc", "path": "harness/src/props/c18.rs", "serves_properties": ["C18"], "kind_free_text": "holder/open-attempt histories; second opens from threads and from re-exec'd child processes (vcheck --child-open)"},
  {"name": "E2-crash", "path": "harness/src/crash", "serves_properties": ["C05", "C12"], "kind_free_text": "storage-event recorder (hook H1) + page-versioned durable-image simulator + crash-image enumeration and recovery oracle on top of E1"},
+ {"name": "E5-lazy", "path": "harness/src/props/c15.rs", "serves_properties": ["C15"], "kind_free_text": "lazy vector constructors over stored sources, closed-formula oracles, generic read-path matrix"},
  {"name": "E1-rawmodel", "path": "harness/src/rawmodel", "serves_properties": ["C01", "C02", "C13", "C05", "C12", "C10"], "kind_free_text": "rawdb op language + byte-vector reference model + extent invariants, driven by proptest"},
 ]
 manifest = {
